@@ -23,6 +23,7 @@ TReset ==
     /\ side' = [k \in CS |-> NoSide] /\ cred' = [k \in CS |-> Cap]
     /\ fut' = [c \in Conns |-> "none"] /\ osh' = [c \in Conns |-> "none"]
     /\ lq' = [p \in PortIds |-> NoLq] /\ wire' = <<>> /\ part' = [h \in Hosts |-> "none"]
+    /\ cport' = [c \in Conns |-> 0] /\ ecur' = [h \in Hosts |-> 1]
     /\ nact' = 0 /\ nwr' = [k \in CS |-> 0] /\ last' = [a |-> "init"]
 
 \* a delivery names the segment; data segments are matched by payload when no sequence number was recorded
@@ -53,7 +54,8 @@ TNext ==
     \/ Is("poll") /\ Poll(E.c) /\ last'.res = E.res
     \/ Is("cancel") /\ Cancel(E.c)
     \/ Is("accept") /\ Accept(E.p) /\ last'.res = E.res /\ last'.c = E.c
-    \/ Is("write") /\ Write(E.c, E.s, E.len) /\ last'.res = E.res /\ (E.res = "ok" => last'.data = E.data)
+    \/ Is("write") /\ E.len > 0 /\ Write(E.c, E.s, E.len) /\ last'.res = E.res /\ (E.res = "ok" => last'.data = E.data)
+    \/ Is("write") /\ E.len = 0 /\ Write0(E.c, E.s, IF E.via = 1 THEN "try" ELSE "poll") /\ last'.res = E.res
     \/ Is("shutdown") /\ Shutdown(E.c, E.s) /\ last'.res = E.res
     \/ Is("read") /\ ReadLike(E.c, E.s, E.n, FALSE) /\ In("read") /\ last'.res = E.res /\ last'.got = E.got
     \/ Is("peek") /\ ReadLike(E.c, E.s, E.n, TRUE) /\ In("peek") /\ last'.res = E.res /\ last'.got = E.got
